@@ -382,6 +382,20 @@ class Adapter:
         """(alias spelling, expected native class) judged on class only."""
         return []
 
+    def native_spellings(self):
+        """[(spelling, numpy dtype, how)]: native numpy spellings that are not
+        registry keys (engines built on numpy only)."""
+        return []
+
+    def native_group(self, ref):
+        return "?"
+
+    def native_policy(self, k, ref):
+        """{"judged": is resolving promised, "cls": expected (kind, signed,
+        bits) when judged, "kind": numpy kind letter the boxed dtype keeps,
+        "box": native dtype the resolved type must box}."""
+        return {"judged": False}
+
     def boxed_native(self, k):
         """The native dtype a resolved type must box (its ``type``) when the
         spelling ``k`` is itself a native dtype *instance*; None otherwise or
@@ -441,6 +455,211 @@ def _sctype_aliases():
     return out
 
 
+# ---------------------------------------------------------------------------
+# native numpy spellings that are NOT registry keys: everything numpy itself
+# reads as a dtype (np.dtype(x) succeeds) - sized / byte-ordered type codes,
+# flexible dtypes with an item size, the dtype instance of a real array,
+# scalar classes, structured and sub-array dtypes.  These reach the engines'
+# fallback path (np.dtype(x).type / pandas_dtype(x)), never the equivalents
+# table.
+# ---------------------------------------------------------------------------
+def _np_try_early(k):
+    try:
+        return np.dtype(k) is not None
+    except Exception:  # noqa
+        return False
+
+
+_BYTE_ORDERS = ["", "<", ">", "=", "|"]
+_FLEX_SIZES = [1, 2, 3, 5, 8, 16, 64, 255, 1024]
+_WIDE_CODES = [c for c in ("f16", "c32") if _np_try_early(c)]
+_NP_UNITS = ["Y", "M", "W", "D", "h", "m", "s", "ms", "us", "ns", "ps", "fs", "as"]
+
+
+def _np_try(k):
+    try:
+        return np.dtype(k)
+    except Exception:  # noqa  numpy itself does not read it: not a spelling
+        return None
+
+
+def np_group(nd):
+    """Input class of a native numpy dtype (by what numpy says it is)."""
+    if nd.kind in "US":
+        return f"flex-{'sized' if nd.itemsize else 'unsized'}:{nd.kind}"
+    if nd.kind == "V":
+        if nd.names is not None:
+            return "structured"
+        if nd.subdtype is not None:
+            return "subarray"
+        return f"flex-{'sized' if nd.itemsize else 'unsized'}:V"
+    if nd.kind in "Mm":
+        return "temporal"
+    if nd.kind == "O":
+        return "object"
+    if nd.kind in "biufc":
+        return "numeric"
+    return f"other-kind:{nd.kind}"          # e.g. 'T' (numpy >= 2 StringDType)
+
+
+def _np_arrays():
+    """dtype instances taken from real arrays (what ``arr.dtype`` hands to a
+    user who wants to compare it with a declared type)."""
+    a = [np.array(["a", "bcd", "efghi"]), np.array(["x" * 12]), np.array([""]),
+         np.array([], dtype=str), np.array(["é", "üü"]),
+         np.array([b"ab", b"cde"]), np.array([b""]), np.array(["ab"]).astype("S"),
+         np.array(["abc"]).astype(">U3"), np.char.upper(np.array(["ab", "c"])),
+         np.array([1, 2]), np.array([1.5]), np.array([True]), np.array([1 + 2j]),
+         np.array([1], dtype=">i4"), np.array([1.0], dtype=">f8"),
+         np.arange(3, dtype="u1"), np.array([None]), np.array([{}, []], dtype=object),
+         np.array(["2020-01-01"], dtype="M8[D]"),
+         np.array([np.timedelta64(1, "s")]), np.array([np.datetime64("2020", "Y")]),
+         np.zeros(2, dtype=[("a", "i4"), ("b", "U3")]),
+         np.zeros(1, dtype="V4"), np.array([(1, 2.0)], dtype="i4,f8")]
+    return [x.dtype for x in a]
+
+
+def np_native_catalog():
+    """[(spelling, np.dtype, how)]: deterministic, finite; ``how`` says in
+    which form the spelling is given (code string / dtype instance / array
+    dtype / scalar class / dtype class)."""
+    out, seen = [], set()
+
+    def add(k, how):
+        nd = _np_try(k)
+        if nd is None:
+            return
+        d = (desc(k), how)
+        if d in seen:
+            return
+        seen.add(d)
+        out.append((k, nd, how))
+
+    def both(code):
+        add(code, "code")
+        nd = _np_try(code)
+        if nd is not None:
+            add(nd, "instance")
+
+    for kind in "USV":
+        for bo in _BYTE_ORDERS:
+            both(f"{bo}{kind}")
+            both(f"{bo}{kind}0")
+            for n in _FLEX_SIZES:
+                both(f"{bo}{kind}{n}")
+    both("c")                                  # 'c' is S1
+    for kind, cls in (("U", np.str_), ("S", np.bytes_), ("V", np.void)):
+        for n in (1, 7):
+            nd = _np_try((cls, n))
+            if nd is not None:
+                add(nd, "instance")
+    for nd in _np_arrays():
+        add(nd, "array-dtype")
+    for bo in _BYTE_ORDERS:
+        for code in ["b1", "?", "i1", "i2", "i4", "i8", "u1", "u2", "u4", "u8",
+                     "f2", "f4", "f8", "f16", "c8", "c16", "c32", "O"]:
+            both(bo + code)        # f16 / c32: skipped where numpy has none
+        for k in ("M8", "m8"):
+            both(bo + k)
+            for u in _NP_UNITS:
+                both(f"{bo}{k}[{u}]")
+            for mult in ("2D", "25s", "10ns", "3M"):
+                both(f"{bo}{k}[{mult}]")
+    for k in ("datetime64", "timedelta64"):
+        for u in _NP_UNITS:
+            both(f"{k}[{u}]")
+    # scalar classes (np.int32, np.longlong, np.str_ ...) and their dtypes
+    classes = sorted({v for v in np.sctypeDict.values() if isinstance(v, type)},
+                     key=lambda c: c.__name__)
+    for c in classes:
+        add(c, "scalar-class")
+        nd = _np_try(c)
+        if nd is not None:
+            add(nd, "instance")
+    # dtype classes (numpy >= 1.25: np.dtypes.Int64DType ...), instantiated
+    # by numpy when it accepts them without arguments
+    dts = getattr(np, "dtypes", None)
+    for n in sorted(dir(dts)) if dts is not None else ():
+        c = getattr(dts, n)
+        if isinstance(c, type) and issubclass(c, np.dtype):
+            try:
+                add(c(), "dtype-class-instance")
+            except Exception:  # noqa
+                pass
+    # structured / sub-array dtypes
+    for k in ["i4,f8", "U3,i8", "(2,3)f8", "(2,)i4", "3i4", "i4,(2,)f4,S5",
+              np.dtype([("a", "i4"), ("b", "f8")]),
+              np.dtype([("name", "U10"), ("age", "u1")]),
+              np.dtype([("x", "f4", (2, 2))]),
+              np.dtype({"names": ["a", "b"], "formats": ["i2", "M8[s]"]}),
+              np.dtype([("in", [("a", "i1"), ("b", "S2")])]),
+              np.dtype(("i4", (2,))), np.dtype(("U4", (3,))),
+              np.dtype([("a", "i4"), ("b", "f8")], align=True),
+              np.dtype([])]:
+        add(k, "code" if isinstance(k, str) else "instance")
+    add("T", "code")
+    return out
+
+
+def np_native_sample(rng):
+    """One sampled native numpy spelling: (spelling, np.dtype, how)."""
+    r = rng.random()
+    bo = rng.choice(_BYTE_ORDERS)
+    if r < 0.45:
+        kind = rng.choice("UUSSV")
+        n = rng.choice([rng.randint(1, 40), rng.randint(1, 40),
+                        rng.randint(41, 5000), 2 ** rng.randint(0, 16)])
+        if rng.random() < 0.3:
+            # the dtype of an actual array whose longest element has n chars
+            n = min(n, 300)
+            el = ["x" * rng.randint(0, n) for _ in range(rng.randint(0, 3))] + ["y" * n]
+            arr = np.array(el) if kind != "S" else np.array([e.encode() for e in el])
+            if kind == "V":
+                arr = np.zeros(1, dtype=f"V{n}")
+            return arr.dtype, arr.dtype, "array-dtype"
+        code = f"{bo}{kind}{n}"
+    elif r < 0.65:
+        code = bo + rng.choice(["b1", "i1", "i2", "i4", "i8", "u1", "u2", "u4",
+                                "u8", "f2", "f4", "f8", "c8", "c16"] + _WIDE_CODES)
+    elif r < 0.8:
+        u = rng.choice(_NP_UNITS)
+        m = rng.choice(["", "", str(rng.randint(2, 60))])
+        code = f"{bo}{rng.choice(['M8', 'm8', 'datetime64', 'timedelta64'])}[{m}{u}]"
+        if code[0] in "<>=|" and code[1] in "dt":
+            code = code[1:]
+    else:
+        n = rng.randint(1, 4)
+        fields = [(f"f{i}", rng.choice(["i4", "f8", "U5", "S3", "?", "M8[s]", "O",
+                                        ">i2", "u1"]))
+                  for i in range(n)]
+        if rng.random() < 0.3:
+            fields[0] = (fields[0][0], fields[0][1], (rng.randint(1, 3),))
+        nd = np.dtype(fields, align=rng.random() < 0.3)
+        if rng.random() < 0.3 and all(len(f) == 2 for f in fields):
+            code = ",".join(f[1] for f in fields)
+            return code, np.dtype(code), "code"
+        return nd, nd, "instance"
+    nd = np.dtype(code)
+    if rng.random() < 0.5:
+        return nd, nd, "instance"
+    return code, nd, "code"
+
+
+def np_native_policy(nd):
+    """What the numpy engine promises for a native numpy spelling.  U / S are
+    registered types (String, Bytes) and every numeric / bool / temporal /
+    object code names a registered type: the spelling resolves, keeps its
+    (kind, signedness, width) and a str / bytes / object dtype stays one.
+    Void, structured and sub-array dtypes only get the unregistered fallback
+    box ("support is not guaranteed") and 'T' is newer than the engine:
+    generated, resolved, not judged on resolving."""
+    if nd.kind in "biufcMm":
+        return {"judged": True, "cls": np_class(nd)}
+    if nd.kind in "USO":
+        return {"judged": True, "cls": None, "kind": nd.kind}
+    return {"judged": False}
+
+
 class NumpyAdapter(Adapter):
     name = "numpy"
     roundtrip = True
@@ -482,7 +701,20 @@ class NumpyAdapter(Adapter):
     def alias_probes(self):
         return _sctype_aliases()
 
+    def native_spellings(self):
+        return np_native_catalog()
+
+    def native_group(self, ref):
+        return np_group(ref)
+
+    def native_policy(self, k, nd):
+        return np_native_policy(nd)
+
     def param_family(self, rng):
+        if rng.random() < 0.6:
+            k, nd, how = np_native_sample(rng)
+            return {"label": f"np-native[{np_group(nd)}:{how}]", "native": True,
+                    "spellings": [k], "nd": nd, "how": how}
         # numpy dtypes with a unit: only the kind is promised
         unit = rng.choice(["ns", "us", "ms", "s", "D", "m", "h"])
         kind = rng.choice(["datetime64", "timedelta64"])
@@ -680,6 +912,54 @@ class PandasAdapter(Adapter):
     def alias_probes(self):
         return _sctype_aliases()
 
+    def native_spellings(self):
+        # "Pandas-native data types, e.g. pd.StringDtype, pd.BooleanDtype":
+        # every extension dtype class pandas exports and builds without
+        # arguments, given as class and as instance (registered or not)
+        import inspect
+        out = np_native_catalog()
+        for c in sorted({c for c in vars(pd).values() if inspect.isclass(c)
+                         and issubclass(c, pd.api.extensions.ExtensionDtype)},
+                        key=lambda c: c.__name__):
+            try:
+                inst = c()
+                str(inst.name)
+            except Exception:  # noqa  needs parameters: sampled elsewhere
+                continue
+            out += [(c, inst, "extension-class"), (inst, inst, "extension-instance")]
+        return out
+
+    def native_group(self, ref):
+        if isinstance(ref, np.dtype):
+            return np_group(ref)
+        return "extension:" + type(ref).__name__
+
+    def native_policy(self, k, nd):
+        if not isinstance(nd, np.dtype):
+            # the class resolves; the instance resolves to a type boxing it.
+            # Whether both are *equal* is not judged (an engine type built
+            # from defaults may hold a parameter in another form than the
+            # one built from the native instance: see "also" above)
+            return {"judged": True, "cls": "skip",
+                    "box": k if not isinstance(k, type) else None}
+        return self._np_policy(k, nd)
+
+    def _np_policy(self, k, nd):
+        """Numeric / bool / temporal numpy spellings that pandas itself reads
+        as a dtype keep their (kind, signedness, width) ("Numpy data types",
+        "any of the string aliases supported by pandas",
+        docs/source/dtype_validation.md).  A pandas object never carries a
+        flexible (sized str / bytes / void), structured or 'T' numpy dtype -
+        pandas stores such data as object - so whether the pandas engine
+        reads those spellings is promised nowhere: not judged."""
+        if nd.kind in "biufcMm":
+            try:
+                pd.api.types.pandas_dtype(k)
+            except Exception:  # noqa  pandas rejects the spelling
+                return {"judged": False}
+            return {"judged": True, "cls": np_class(nd)}
+        return {"judged": False}
+
     @staticmethod
     def _alias(nat):
         """The pandas string alias of a native dtype, when pandas itself reads
@@ -692,6 +972,10 @@ class PandasAdapter(Adapter):
         import pyarrow
         from pandera import dtypes
         m = self.mod
+        if rng.random() < 0.05:
+            k, nd, how = np_native_sample(rng)
+            return {"label": f"np-native[{np_group(nd)}:{how}]", "native": True,
+                    "spellings": [k], "nd": nd, "how": how}
         kind = rng.choice(["tz", "tz", "tz", "tz-agnostic", "cat", "cat",
                            "string", "period", "sparse", "interval", "generic",
                            "decimal", "decimal",
@@ -1002,6 +1286,77 @@ class PolarsAdapter(Adapter):
     def boxed_native(self, k):
         import polars as pl
         return k if isinstance(k, pl.DataType) else None
+
+    # "pandera currently supports all of the polars data types"
+    # (docs/source/polars.md, Supported Data Types): every data type class
+    # polars exports, and the instance polars builds of it without
+    # arguments (what ``series.dtype`` / ``frame.schema[name]`` hand to a
+    # user), is a spelling - registered or not.
+    _NOT_A_TYPE = ("DataType", "BaseExtension", "Extension", "Unknown")
+
+    def native_spellings(self):
+        import inspect
+        import typing
+        import polars as pl
+        out = []
+        classes = sorted({c for c in vars(pl).values() if inspect.isclass(c)
+                          and issubclass(c, pl.DataType)},
+                         key=lambda c: c.__name__)
+        for c in classes:
+            out.append((c, c, "class"))
+            try:
+                inst = c()
+            except Exception:  # noqa  needs parameters: sampled elsewhere
+                continue
+            out.append((inst, inst, "instance"))
+            try:
+                sd = pl.Series([], dtype=c).dtype
+            except Exception:  # noqa
+                continue
+            if type(sd) is c:
+                out.append((sd, sd, "series-dtype"))
+        # python types polars itself reads as a data type
+        for py in [int, str, float, bool, bytes, datetime.date, datetime.time,
+                   datetime.datetime, datetime.timedelta, decimal.Decimal,
+                   list, tuple, type(None), object, typing.List[str],
+                   typing.List[int], typing.Tuple[int, ...],
+                   typing.List[typing.List[float]]]:
+            try:
+                ref = pl.Series([], dtype=py).dtype
+            except Exception:  # noqa
+                continue
+            out.append((py, ref, "python-type"))
+        return out
+
+    def native_group(self, ref):
+        import inspect
+        c = ref if inspect.isclass(ref) else type(ref)
+        key_registered = False
+        for k in (ref, c):
+            try:
+                key_registered = key_registered or self.registers(k)
+            except Exception:  # noqa
+                pass
+        from pandera.engines import engine as eng
+        disp = c in eng.Engine._registry[self.E].dispatch.registry
+        return ("registered" if key_registered or disp else "unregistered") \
+            + ":" + c.__name__
+
+    def native_policy(self, k, ref):
+        import inspect
+        import polars as pl
+        if not (isinstance(k, pl.DataType) or
+                (inspect.isclass(k) and issubclass(k, pl.DataType))):
+            # python types: "handled in the same way that polars handles
+            # them" is said of the built-in str / int / float / bool (judged
+            # in the documented families); for decimal.Decimal, list, tuple,
+            # NoneType and generics the parameters polars fills in (decimal
+            # precision, List(Null)) are not promised to be pandera's
+            return {"judged": False}
+        c = k if inspect.isclass(k) else type(k)
+        if c.__name__ in self._NOT_A_TYPE:
+            return {"judged": False}       # abstract bases / placeholder
+        return {"judged": True, "cls": "skip", "box": k}
 
     def dispatch_samples(self):
         import polars as pl
